@@ -19,8 +19,8 @@ def main(tier):
     rep.attempt(footprint.angle_interpolation, P, rep)     # the Gaussian plume's ellipse orientation between two cross sections
     rep.attempt(footprint.ellipse_fraction, P, rep)
     footprint.ridge_alias_twins(P, rep)    # (dist, v) of the cooling formulas come from one and the same ridge point
-    rep.assumptions.append("Chapman geotherm, mass-conserving slab and tian2019 parameterisations have no independent closed form short "
-                           "enough to serve as an oracle: not decided; numerical accuracy not decided")
+    rep.assumptions.append("mass-conserving slab and tian2019 parameterisations have no independent closed form short enough to serve as an "
+                           "oracle: not decided (the Chapman geotherm is compared with its quadratic); numerical accuracy not decided")
     # the answer does not depend on what was queried before (no cache that outlives a query: a necessary condition for a
     # statement about 'all worlds and all points', which includes a second world in the same process)
     pure.run(P, rep, pure.query_roots(P))
